@@ -6,6 +6,7 @@ import (
 	"fmt"
 	"math"
 	"math/rand"
+	"verif/harness/internal/cborx"
 
 	"github.com/ipfs/go-cid"
 	"github.com/ipld/go-ipld-prime/datamodel"
@@ -169,3 +170,135 @@ func SimpleVoucher(typ, data string) datatransfer.TypedVoucher {
 
 // Pick returns a random element.
 func Pick[T any](r *rand.Rand, xs []T) T { return xs[r.Intn(len(xs))] }
+
+// ---------------------------------------------------------------- plain values
+// Plain generates an arbitrary non-null IPLD value as plain Go data understood by cborx
+// (bool, int64, float64, string, []byte, cid.Cid, cborx-style []any, ordered map OMap).
+
+// OMap is a map with an explicit (random) insertion order and unique keys.
+type OMap []OKV
+type OKV struct {
+	K string
+	V any
+}
+
+func Plain(r *rand.Rand, depth int) any {
+	k := r.Intn(9)
+	if depth <= 0 && k >= 7 {
+		k = r.Intn(7)
+	}
+	switch k {
+	case 0:
+		return r.Intn(2) == 0
+	case 1:
+		switch r.Intn(5) {
+		case 0:
+			return int64(math.MaxInt64)
+		case 1:
+			return int64(math.MinInt64)
+		case 2:
+			return int64(r.Intn(48)) - 24
+		default:
+			return r.Int63() - r.Int63()
+		}
+	case 2:
+		f := r.NormFloat64() * math.Pow(10, float64(r.Intn(20)-10))
+		switch r.Intn(8) {
+		case 0:
+			f = float64(r.Intn(100))
+		case 1:
+			// floats whose IEEE bit pattern is tiny (0.0, denormals): always 9 bytes in DAG-CBOR
+			f = Pick(r, []float64{0, math.Copysign(0, -1), 5e-324, 1e-320, 2.1219957905e-314, math.MaxFloat64, math.SmallestNonzeroFloat64})
+		}
+		return f
+	case 3:
+		return randString(r, 40, r.Intn(4) != 0)
+	case 4:
+		b := make([]byte, r.Intn(64))
+		r.Read(b)
+		return b
+	case 5:
+		return Cid(r)
+	case 6:
+		return ""
+	case 7:
+		n := r.Intn(5)
+		out := make([]any, n)
+		for i := range out {
+			out[i] = PlainOrNull(r, depth-1)
+		}
+		return out
+	default:
+		n := r.Intn(5)
+		keys := map[string]bool{}
+		var om OMap
+		for len(om) < n {
+			s := randString(r, 12, r.Intn(5) != 0)
+			if !keys[s] {
+				keys[s] = true
+				om = append(om, OKV{s, PlainOrNull(r, depth-1)})
+			}
+		}
+		if om == nil {
+			om = OMap{}
+		}
+		return om
+	}
+}
+
+func PlainOrNull(r *rand.Rand, depth int) any {
+	if r.Intn(10) == 0 {
+		return nil
+	}
+	return Plain(r, depth)
+}
+
+// ToNode builds an IPLD node (basicnode) from a plain value; maps keep their insertion order.
+func ToNode(v any) datamodel.Node {
+	switch x := v.(type) {
+	case nil:
+		return datamodel.Null
+	case bool:
+		return basicnode.NewBool(x)
+	case int64:
+		return basicnode.NewInt(x)
+	case float64:
+		return basicnode.NewFloat(x)
+	case string:
+		return basicnode.NewString(x)
+	case []byte:
+		return basicnode.NewBytes(x)
+	case cid.Cid:
+		return basicnode.NewLink(cidlink.Link{Cid: x})
+	case []any:
+		nd, err := qp.BuildList(basicnode.Prototype.Any, int64(len(x)), func(la datamodel.ListAssembler) {
+			for _, e := range x {
+				qp.ListEntry(la, qp.Node(ToNode(e)))
+			}
+		})
+		if err != nil {
+			panic(err)
+		}
+		return nd
+	case OMap:
+		nd, err := qp.BuildMap(basicnode.Prototype.Any, int64(len(x)), func(ma datamodel.MapAssembler) {
+			for _, kv := range x {
+				qp.MapEntry(ma, kv.K, qp.Node(ToNode(kv.V)))
+			}
+		})
+		if err != nil {
+			panic(err)
+		}
+		return nd
+	}
+	panic(fmt.Sprintf("gen.ToNode: unsupported %T", v))
+}
+
+// CborxPairs lets cborx canonicalise an OMap without importing this package.
+func (m OMap) CborxPairs() []cborx.KV {
+	out := make([]cborx.KV, len(m))
+	for i, kv := range m {
+		out[i] = cborx.KV{K: kv.K, V: kv.V}
+	}
+	return out
+}
